@@ -23,9 +23,11 @@ for name in sorted(os.listdir(os.path.join(VERIF, "seeded"))):
     props = meta.get("checks_to_run") or [prop]
     caught = []
     for p in props:
+        env = dict(os.environ, FMSIM_NO_SHRINK="1")
         out = subprocess.run([os.path.join(VERIF, "tools", "mutant.sh"),
                               os.path.join(d, "patch.diff"), p, secs],
-                             stdout=subprocess.PIPE, stderr=subprocess.STDOUT, cwd=VERIF).stdout
+                             stdout=subprocess.PIPE, stderr=subprocess.STDOUT, cwd=VERIF,
+                             env=env).stdout
         out = out.decode("utf-8", "replace")
         for m in re.finditer(r"^  ([a-zA-Z_.\- ]+?) ([A-Za-z:_.]+): (.*)$", out, re.M):
             caught.append({"check_property": p, "check_id": m.group(1), "site": m.group(2),
